@@ -37,7 +37,7 @@ HEX64 = re.compile(r"^[0-9a-fA-F]{64}$")
 def plan(prop: str, tier: str) -> Plan:
     if tier == "quick":
         return Plan(shards=4, cases_per_shard=2500, timeout_s=600)
-    return Plan(shards=16, cases_per_shard=15000, timeout_s=3000)
+    return Plan(shards=16, cases_per_shard=100000, timeout_s=3000)
 
 
 class Session:
